@@ -2,26 +2,48 @@
 from cvbase import *
 from plbase import *
 import plbase
+import swbase
+from swbase import AFTER_PREFIXES, model_line_after, agree_after
 
 ID = "C01"
 PROPS = ["C01", "C01Compose"]
-EXEC = "pl"
+EXEC = ("pl", "sws")
 RULE = ("n in 2..6 pipelined requests on one connection, each answered by its own thread; the threads are released in a random "
         "permutation (quick) / every permutation for n <= 4 (thorough) with grace periods of 0.3 / 3 / 20 ms; finishers: respond "
         "(identity with 0..5000 bytes on both sides of the 1 KiB write buffer, chunked up to 40000 bytes), drop, panicking handler, "
         "raw writer with one flushed write or three unflushed writes; every answer carries the id of its request; the oracle "
         "splits the client's byte stream with an independent response parser and demands the answers of requests 0,1,2,... in "
         "that order, each complete and alone; the model's (sequential) wire must be byte-identical whatever the order; "
-        "non-trivial = release order differs from request order")
+        "non-trivial = release order differs from request order. SCHEDULED RUNS of the real writer chain (`sws`): the "
+        "SequentialWriterBuilder/SequentialWriter code of src/util/sequential.rs runs under the controllable runtime (hook H2: "
+        "its mpsc channels and the shared writer's mutex are facade types, every send/receive/lock is a scheduling point of a "
+        "seeded schedule): 2..7 writers over 1..4 threads plus the connection thread, each writer with 0..3 writes, flushes, "
+        "drop; scripts that can always progress and scripts that may block; the recorded labels (New / Write / Flush / DropW) "
+        "are replayed in LOCK-STEP through the extracted step function of Conc/SeqWriter.v: every label must be enabled, the "
+        "sink must hold the model's stream, and every operation the code is blocked in must be disabled in the model too")
 ASSUMPTIONS = ["TCP / Unix sockets deliver bytes in order", "the grace period only buys detection power: on code that waits "
                "correctly the outcome does not depend on it"]
 
 
 def gen(tier, rng):
-    return plbase.gen_cases(tier, rng)
+    for x in plbase.gen_cases(tier, rng):
+        yield x
+    for x in swbase.gen_sws(tier, rng):
+        yield x
+
+
+_pl_oracle = oracle
+
+
+def oracle(case, obs):
+    if case.startswith("sws "):
+        return swbase.oracle(case, obs)
+    return _pl_oracle(case, obs)
 
 
 def nontrivial(case, mo):
     import re
+    if case.startswith("sws "):
+        return swbase.nontrivial(case, mo)
     o = re.search(r"order=(\S+)", case).group(1).split(",")
     return o != sorted(o, key=int)
